@@ -27,6 +27,10 @@ pub struct Case {
     /// produce the file with the independent encoder (arbitrary XML) instead of the writer
     pub foreign: bool,
     pub lex: Vec<u8>,
+    /// an extension record with the local name of a standard colour / intensity attribute (selector) and another
+    /// range, placed in front of the standard records
+    #[serde(default)]
+    pub shadow: Option<u8>,
 }
 
 fn attr_type(s: &mut Src) -> RType {
@@ -150,7 +154,14 @@ fn values(s: &mut Src, ty: &RType, lim: &(Option<LimitVal>, Option<LimitVal>)) -
             while fs.len() < n {
                 fs.push(gen::f64_finite(s) as f32);
             }
-            let mut fs: Vec<f32> = fs.into_iter().filter(|v| v.is_finite()).map(|v| v.clamp(tmin, tmax)).collect();
+            // 1 attribute in 3: the stored floats are not confined to the declared range (the declared minimum / maximum of a
+            // float type do not restrict what can be stored; such values normalise to 0 or 1)
+            let free = s.chance(1, 3);
+            if free {
+                fs.push(tmin - (tmax - tmin).abs().max(1.0) / 2.0);
+                fs.push(tmax + (tmax - tmin).abs().max(1.0) / 2.0);
+            }
+            let mut fs: Vec<f32> = fs.into_iter().filter(|v| v.is_finite()).map(|v| if free { v } else { v.clamp(tmin, tmax) }).collect();
             fs.sort_by(|a, b| a.partial_cmp(b).unwrap_or(std::cmp::Ordering::Equal));
             out.extend(fs.into_iter().map(|v| Val::S(F32(v))));
         }
@@ -161,7 +172,12 @@ fn values(s: &mut Src, ty: &RType, lim: &(Option<LimitVal>, Option<LimitVal>)) -
             while fs.len() < n {
                 fs.push(gen::f64_finite(s));
             }
-            let mut fs: Vec<f64> = fs.into_iter().filter(|v| v.is_finite()).map(|v| v.clamp(tmin, tmax)).collect();
+            let free = s.chance(1, 3);
+            if free {
+                fs.push(tmin - (tmax - tmin).abs().max(1.0) / 2.0);
+                fs.push(tmax + (tmax - tmin).abs().max(1.0) / 2.0);
+            }
+            let mut fs: Vec<f64> = fs.into_iter().filter(|v| v.is_finite()).map(|v| if free { v } else { v.clamp(tmin, tmax) }).collect();
             fs.sort_by(|a, b| a.partial_cmp(b).unwrap_or(std::cmp::Ordering::Equal));
             out.extend(fs.into_iter().map(|v| Val::D(F64(v))));
         }
@@ -197,16 +213,25 @@ fn build(case: &Case) -> Scene {
             meta.color_limits = Some([c[0].limits.0, c[0].limits.1, c[1].limits.0, c[1].limits.1, c[2].limits.0, c[2].limits.1]);
         }
     }
+    let mut extensions = Vec::new();
+    if let Some(k) = case.shadow {
+        extensions.push(("shd".to_string(), "urn:verif:shadow".to_string()));
+        let name = ["intensity", "colorRed", "colorGreen", "colorBlue"][k as usize % 4];
+        proto.insert(0, Rec { prefix: Some("shd".into()), name: name.into(), ty: RType::Int { min: -1000, max: 1000 } });
+    }
     let points = (0..n)
         .map(|i| {
             let mut p = vec![Val::S(F32(i as f32)), Val::S(F32(0.0)), Val::S(F32(1.0))];
+            if case.shadow.is_some() {
+                p.insert(0, Val::I(i as i64 % 7 - 3));
+            }
             for a in &cols {
                 p.push(a.vals[i]);
             }
             p
         })
         .collect();
-    Scene { guid: "{c13-file}".into(), clouds: vec![Cloud { meta, proto, points }], ..Default::default() }
+    Scene { guid: "{c13-file}".into(), extensions, clouds: vec![Cloud { meta, proto, points }], ..Default::default() }
 }
 
 /// What the reader will see as limits: the writer stores limits only when complete.
@@ -299,7 +324,7 @@ impl Check for C13 {
         let intensity = if shape != 1 { Some(attr(s)) } else { None };
         let color = if shape != 0 { Some(vec![attr(s), attr(s), attr(s)]) } else { None };
         let lex = if s.flag() { (0..16).map(|_| s.byte()).collect() } else { vec![] };
-        Case { intensity, color, foreign: s.flag(), lex }
+        Case { intensity, color, foreign: s.flag(), lex, shadow: if s.chance(1, 5) { Some(s.byte()) } else { None } }
     }
     fn run(case: &Case) -> Verdict {
         let mut v = Verdict::new();
